@@ -24,8 +24,9 @@ OVERLAY_SRC = os.path.join(ROOT, "harness", "overlay")
 KNOWN = os.path.join(ROOT, "known_findings.json")
 
 FORBIDDEN = re.compile(
-    r"\b(Admitted|admit|Axiom|Axioms|Parameter|Parameters|Conjecture|Hypothesis|Variable|Variables|"
+    r"\b(Admitted|admit|Axiom|Axioms|Parameter|Parameters|Conjecture|Hypothesis|Hypotheses|Variable|Variables|Context|"
     r"Unset\s+Guard|bypass_check|type-in-type|impredicative-set|Admit\s+Obligations)\b")
+SECTION_LOCAL = ("Variable", "Variables", "Hypothesis", "Hypotheses", "Context")
 
 
 def log(*a):
@@ -225,6 +226,7 @@ def coq_audit():
     for rel in coq_project_files():
         with open(os.path.join(COQ, rel)) as f:
             in_comment = 0
+            scopes = []     # stack of "Section"/"Module" currently open
             for i, line in enumerate(f, 1):
                 # strip (* ... *) comments (nesting-aware, line based)
                 s = ""
@@ -240,11 +242,19 @@ def coq_audit():
                         if not in_comment:
                             s += line[j]
                         j += 1
+                ms = re.match(r"\s*(Section|Module(?:\s+Type)?)\s+[A-Za-z0-9_']+\s*\.\s*$", s)
+                if ms:
+                    scopes.append("Section" if ms.group(1) == "Section" else "Module")
+                elif re.match(r"\s*End\s+[A-Za-z0-9_']+\s*\.", s) and scopes:
+                    scopes.pop()
                 m = FORBIDDEN.search(s)
                 if m:
-                    # `Variable`/`Hypothesis` inside a Section are allowed; checked separately
-                    if m.group(1) in ("Variable", "Variables", "Hypothesis"):
-                        continue
+                    # section-local declarations are discharged at End; outside a section they declare an axiom
+                    if m.group(1) in SECTION_LOCAL:
+                        if "Section" in scopes and re.match(r"\s*(Variable|Variables|Hypothesis|Hypotheses|Context)\b", s):
+                            continue
+                        if not re.match(r"\s*(Variable|Variables|Hypothesis|Hypotheses|Context)\b", s):
+                            continue     # the word inside a term or tactic, not a declaration
                     bad.append("%s:%d: %s" % (rel, i, s.strip()))
     return bad
 
